@@ -114,7 +114,6 @@ def render : Bytes → List Ev → List String
     | .report d b => render (pend ++ [d.toUInt8] ++ b ++ [0]) r
     | .openRead p => flush ++ ("o" ++ hex p) :: render [] r
     | .spawnCall s sd rc a => flush ++ (s!"f{hexNat2 s}:{hex sd}:{hex rc}:{a}") :: render [] r
-    | .overread => ["V"]
 
 /-- the implementation's trace as events: each W is cut into reports (the first one starts with the hello byte) -/
 def parseTrace (toks : List String) : Option (List Ev × Bool) := do
@@ -137,7 +136,6 @@ def parseTrace (toks : List String) : Option (List Ev × Bool) := do
         let s' ← unhex s; let sd' ← unhex sd; let rc' ← unhex rc; let a' ← a.toNat?
         evs := evs ++ [.spawnCall (s'.headD 0).toNat sd' rc' a']
       | _ => none
-    | ['V'] => evs := evs ++ [.overread]
     | ['e', '0'] => normal := true
     | _ => none
   return (evs, normal)
@@ -158,13 +156,11 @@ def handle (st : Stats) (kindS planh scriptS trace : String) : IO Stats := do
       st ← disagree st s!"kind=spawn{kindS} in={scriptS} plan={planh} impl={trace} model={model}"
     match parseTrace (trace.splitOn ",") with
     | some (evs, normal) =>
-      let over := evs.any (· == .overread)
-      if over then st := st.bump "rspawn_report_overread_cases"
-      if !(normal || over) then
-        st ← oracleFail st s!"kind=spawn{kindS} in={scriptS} plan={planh} impl={trace} (abnormal end)"
+      if !normal then
+        st ← oracleFail st s!"kind=spawn{kindS} in={scriptS} plan={planh} impl={trace} (abnormal end: the program was aborted while running this case)"
       else if !(Nq.Spec.TB.opensOK cmds plan evs) then
         st ← oracleFail st s!"kind=spawn{kindS} in={scriptS} plan={planh} impl={trace} (open/spawn discipline)"
-      else if normal && !(Nq.Spec.TB.reportsOK cmds (Nq.Spec.TB.reportsOf evs)) then
+      else if !(Nq.Spec.TB.reportsOK cmds (Nq.Spec.TB.reportsOf evs)) then
         st ← oracleFail st s!"kind=spawn{kindS} in={scriptS} plan={planh} impl={trace} commands={cmds.length} reports={(Nq.Spec.TB.reportsOf evs).length} (one report per command)"
       else
         if evs.any (fun e => match e with | .spawnCall _ _ _ _ => true | _ => false) then st := st.bump "spawn_child_started"
@@ -205,9 +201,9 @@ def render : Bytes → List Ev → List String
     let flush := if pend.isEmpty then [] else ["L" ++ hexRaw pend]
     match e with
     | .log t => render (pend ++ t) r
-    | .openWrite p => flush ++ ("O" ++ hex p) :: render [] r
-    | .seek pos => flush ++ s!"K{pos}" :: render [] r
-    | .writeD b => flush ++ ("D" ++ hex b) :: render [] r
+    | .mark p pos b => flush ++ ("O" ++ hex p) :: s!"K{pos}" :: ("D" ++ hex b) :: render [] r
+    | .openWriteFail p => flush ++ ("O" ++ hex p) :: render [] r
+    | .stray => flush ++ "?" :: render [] r
     | .openAppend p => flush ++ ("A" ++ hex p) :: render [] r
     | .bounce t => flush ++ ("B" ++ hex t) :: render [] r
     | .unlink p => flush ++ ("U" ++ hex p) :: render [] r
@@ -219,20 +215,31 @@ def renderFinal (st : St) : String :=
   let jobs := if st.jobs.isEmpty then "-" else ";".intercalate (st.jobs.map (fun j => s!"{j.refs}/{j.numtodo}"))
   s!"E{flags}:{usedCount st}:{st.dlen}:{jobs}"
 
-def parseTrace (toks : List String) : Option (List Ev) :=
-  toks.foldr (fun t acc => do
-    let l ← acc
+/-- the implementation's trace as events; `O p, K pos, D b` in a row is one `mark`, an `O` alone a failed
+open_write, any other `K`/`D` is `stray` -/
+partial def parseTrace : List String → Option (List Ev)
+  | [] => some []
+  | t :: rest =>
     match t.toList with
-    | 'L' :: h => let b ← unhex (String.ofList h); pure (.log b :: l)
-    | 'O' :: h => let b ← unhex (String.ofList h); pure (.openWrite b :: l)
-    | 'K' :: h => let n ← (String.ofList h).toNat?; pure (.seek n :: l)
-    | 'D' :: h => let b ← unhex (String.ofList h); pure (.writeD b :: l)
-    | 'A' :: h => let b ← unhex (String.ofList h); pure (.openAppend b :: l)
-    | 'B' :: h => let b ← unhex (String.ofList h); pure (.bounce b :: l)
-    | 'U' :: h => let b ← unhex (String.ofList h); pure (.unlink b :: l)
-    | 'T' :: h => let b ← unhex (String.ofList h); pure (.stat b :: l)
-    | 'Q' :: _ => pure (.pq 0 0 0 :: l)
-    | _ => none) (some [])
+    | 'O' :: h =>
+      match rest with
+      | k :: d :: rest' =>
+        match k.toList, d.toList with
+        | 'K' :: kh, 'D' :: dh => do
+            let p ← unhex (String.ofList h); let pos ← (String.ofList kh).toNat?; let b ← unhex (String.ofList dh)
+            let l ← parseTrace rest'
+            pure (.mark p pos b :: l)
+        | _, _ => do let p ← unhex (String.ofList h); let l ← parseTrace rest; pure (.openWriteFail p :: l)
+      | _ => do let p ← unhex (String.ofList h); let l ← parseTrace rest; pure (.openWriteFail p :: l)
+    | 'L' :: h => do let b ← unhex (String.ofList h); let l ← parseTrace rest; pure (.log b :: l)
+    | 'K' :: _ => do let l ← parseTrace rest; pure (.stray :: l)
+    | 'D' :: _ => do let l ← parseTrace rest; pure (.stray :: l)
+    | 'A' :: h => do let b ← unhex (String.ofList h); let l ← parseTrace rest; pure (.openAppend b :: l)
+    | 'B' :: h => do let b ← unhex (String.ofList h); let l ← parseTrace rest; pure (.bounce b :: l)
+    | 'U' :: h => do let b ← unhex (String.ofList h); let l ← parseTrace rest; pure (.unlink b :: l)
+    | 'T' :: h => do let b ← unhex (String.ofList h); let l ← parseTrace rest; pure (.stat b :: l)
+    | 'Q' :: _ => do let l ← parseTrace rest; pure (.pq 0 0 0 :: l)
+    | _ => none
 
 def handle (st : Stats) (cS jobsS slotsS planh chunk inh trace : String) : IO Stats := do
   match cS.toNat?, (if jobsS == "-" then some [] else parseList parseJob jobsS), parseList parseSlot slotsS, planOf planh, unhex inh with
@@ -256,7 +263,7 @@ def handle (st : Stats) (cS jobsS slotsS planh chunk inh trace : String) : IO St
       let okFlags := flags == "-" || (flags.length == slots.length &&
         (flags.toList.zip slots).all (fun (f, s) => f == '0' || s.isSome))
       let freed := inflightN - (flags.toList.filter (· == '1')).length
-      let ok := Nq.Spec.TB.sendOK c jobs slots evs && okFlags && (dlenS.toNat?.getD (Nq.Gen.REPORTMAX + 1)) ≤ Nq.Gen.REPORTMAX &&
+      let ok := Nq.Spec.TB.sendOK c jobs slots evs && Nq.Spec.TB.sendStrict c jobs slots inp evs && okFlags && (dlenS.toNat?.getD (Nq.Gen.REPORTMAX + 1)) ≤ Nq.Gen.REPORTMAX &&
                 (Nq.Spec.TB.marksOf evs).length ≤ freed
       if !ok then
         st ← oracleFail st s!"kind=send in={inh} c={cS} jobs={jobsS} slots={slotsS} plan={planh} chunk={chunk} impl={trace}"
@@ -276,6 +283,9 @@ def handle (st : Stats) (line : String) : IO Stats := do
   | ["C", chunk, plan, inh, trace] => CleanD.handle st chunk plan inh trace
   | ["S", kind, plan, script, trace] => SpawnD.handle st kind plan script trace
   | ["D", c, jobs, slots, plan, chunk, inh, trace] => SendD.handle st c jobs slots plan chunk inh trace
-  | _ => disagree st s!"unparsable line {line.take 200}"
+  | ["C", chunk, plan, inh] => oracleFail st s!"kind=clean in={inh} chunk={chunk} plan={plan} impl=(no output: the program crashed on this input)"
+  | ["S", kind, plan, script] => oracleFail st s!"kind=spawn{kind} in={script} plan={plan} impl=(no output: the program crashed on this input)"
+  | ["D", c, jobs, slots, plan, chunk, inh] => oracleFail st s!"kind=send in={inh} c={c} jobs={jobs} slots={slots} plan={plan} chunk={chunk} impl=(no output: the program crashed on this input)"
+  | _ => disagree st s!"unparsable line {line.take 400}"
 
 def main : IO Unit := runDriver handle
